@@ -446,6 +446,37 @@ def native_blocking(shape, maxdim, merge):
     return None
 
 
+def native_presplit(shape, maxdim, merge, cfgname, seed, steps=4):
+    """optimising a tensor under a blocking == optimising its blocks as separate parameters (same gradients)"""
+    import torch
+    from distributed_shampoo.distributed_shampoo import DistributedShampoo
+    from distributed_shampoo import shampoo_types as st
+    from distributed_shampoo.utils.shampoo_distributor import Distributor
+    g = torch.Generator().manual_seed(seed)
+    p = torch.nn.Parameter(torch.randn(shape, generator=g, dtype=torch.float64))
+    cfgs = dict(shampoo=dict(), adam=dict(grafting_config=st.AdamGraftingConfig(beta2=0.9, epsilon=1e-8), betas=(0.9, 0.99), momentum=0.5),
+                soap=dict(preconditioner_config=st.DefaultEigenvalueCorrectedShampooConfig, betas=(0.0, 0.9)))
+    kw = dict(lr=0.05, epsilon=1e-6, weight_decay=0.01, precondition_frequency=2, start_preconditioning_step=2, preconditioner_dtype=torch.float64)
+    kw.update(cfgs[cfgname])
+    opt = DistributedShampoo([p], max_preconditioner_dim=maxdim, use_merge_dims=merge, **kw)
+    blocks = opt._per_group_state_lists[0][st.DISTRIBUTOR].local_blocked_params
+    seps = [torch.nn.Parameter(b.detach().clone().contiguous()) for b in blocks]
+    ref = DistributedShampoo(seps, max_preconditioner_dim=10 ** 6, use_merge_dims=False, **kw)
+    Dg = Distributor({st.PARAMS: [p], st.MAX_PRECONDITIONER_DIM: maxdim, st.USE_MERGE_DIMS: merge})
+    for t in range(steps):
+        gr = torch.randn(shape, generator=g, dtype=torch.float64)
+        p.grad = gr
+        gblocks = Dg.merge_and_block_gradients()
+        for q, gb in zip(seps, gblocks):
+            q.grad = gb.detach().clone().contiguous()
+        opt.step()
+        ref.step()
+        for b, q in zip(blocks, seps):
+            if not torch.allclose(b, q.detach(), rtol=1e-9, atol=1e-11):
+                return f"step {t + 1}: a block of the blocked tensor differs from the same block optimised as a separate parameter (max {float((b - q.detach()).abs().max()):.3e})"
+    return None
+
+
 def bounded(tier, seed):
     import itertools as it
     ext = (1, 2, 3, 4) if tier == "quick" else (1, 2, 3, 4, 5, 6)
@@ -465,6 +496,16 @@ def bounded(tier, seed):
                     if bad:
                         viol.append(dict(ob=f"bounded/blocking[{shape},{maxdim},{merge}]", func="Distributor", input=dict(shape=shape, maxdim=maxdim, merge=merge),
                                          text=bad, detail=bad, replay=dict(kind="native_blocking", shape=list(shape), maxdim=maxdim, merge=merge)))
+    for shape, maxdim, merge, cfgname in it.product(((5, 4), (3, 2, 4), (7,), (2, 1, 3, 2)), (2, 3), (True, False), ("shampoo", "adam", "soap")):
+        try:
+            bad = native_presplit(shape, maxdim, merge, cfgname, seed)
+        except BaseException as e:  # noqa
+            bad = f"raised {type(e).__name__}: {str(e)[:200]}"
+        evals += 1
+        distinct.add(("presplit", shape, maxdim, merge, cfgname))
+        if bad:
+            viol.append(dict(ob=f"bounded/blocked=pre-split[{shape},{maxdim},{merge},{cfgname}]", func="DistributedShampoo.step", input=dict(shape=shape, maxdim=maxdim, merge=merge, config=cfgname),
+                             text=bad, detail=bad, replay=dict(kind="presplit", shape=list(shape), maxdim=maxdim, merge=merge, cfg=cfgname, seed=seed)))
     samples = [dict(shape=(3, 4), max_preconditioner_dim=2, merge=True)]
     return dict(evaluations=evals, distinct_nontrivial=len(distinct), exhaustive=(tier != "quick"),
                 rule="real Distributor on real tensors: shapes of order 0..4 with small extents x max_preconditioner_dim x merge on/off; storage pointer, exact tiling, row-major order, extents, gradient alignment, in-place update; distinct = distinct (shape, max dim, merge)",
@@ -478,6 +519,9 @@ def replay(r):
 def replay_file(doc):
     rp = doc.get("replay_input") or {}
     m = (doc.get("verifier_output") or {}).get("model") or {}
+    if rp.get("kind") == "presplit":
+        bad = native_presplit(tuple(rp["shape"]), rp["maxdim"], rp["merge"], rp["cfg"], rp["seed"])
+        return bool(bad), f"{rp}: {bad}"
     if rp.get("kind") == "native_blocking":
         bad = native_blocking(tuple(rp["shape"]), rp["maxdim"], rp["merge"])
         return bool(bad), f"shape {rp['shape']} max dim {rp['maxdim']} merge {rp['merge']}: {bad}"
